@@ -130,8 +130,10 @@ func Append(ctx context.Context, basen ipld.Node, db *h.DagBuilderHelper) (out i
 		return nil, err
 	}
 
-	// after appendFillLastChild, our depth is now increased by one
-	if !db.Done() {
+	// appendFillLastChild completes the current layer only if it was
+	// partially filled (repeatNumber != 0): only then do we continue with
+	// the next one. An empty layer (repeatNumber == 0) still has to be filled.
+	if repeatNumber != 0 && !db.Done() {
 		depth++
 	}
 
@@ -227,8 +229,10 @@ func appendRec(ctx context.Context, fsn *h.FSNodeOverDag, db *h.DagBuilderHelper
 		return nil, 0, err
 	}
 
-	// after appendFillLastChild, our depth is now increased by one
-	if !db.Done() {
+	// appendFillLastChild completes the current layer only if it was
+	// partially filled (repeatNumber != 0): only then do we continue with
+	// the next one. An empty layer (repeatNumber == 0) still has to be filled.
+	if repeatNumber != 0 && !db.Done() {
 		depth++
 	}
 
